@@ -191,9 +191,12 @@ impl<M: EntityMatcher> TryFrom<&config::FieldMatcher> for MatchAndExpr<M> {
     type Error = ImportError;
 
     fn try_from(from: &config::FieldMatcher) -> Result<Self, ImportError> {
-        let matchers: Result<Vec<M>, _> = from
-            .fields
-            .iter()
+        // fields are applied in the fixed order of RewriteField, not in HashMap order,
+        // as a later capture overrides an earlier one.
+        let mut fields: Vec<_> = from.fields.iter().collect();
+        fields.sort_unstable_by_key(|(fd, _)| **fd);
+        let matchers: Result<Vec<M>, _> = fields
+            .into_iter()
             .map(|(fd, v)| (*fd, v.as_str()).try_into())
             .collect();
         let matchers = matchers?;
